@@ -119,6 +119,38 @@ INFO = {
                                              "C19 scanned in ascending order only: the 73-ray scan is repeated in a scrambled order (C06 saw it as built)"),
     "W3-C20-noh2-cylindrical-time-guard": ("Noh2: time guard replaced by (1-t)^geometry <= 0", "cylindrical geometry and t > 1",
                                            "C20 probed the guard with the default geometry only: every geometry, t = 1+1e-9, 2, 3"),
+    "W4-C01-cog16-lambda0-class-attribute": ("Cog16: K0 = 16 c lambda0 a / 3 hoisted to a class attribute (always the default lambda0)", "lambda0 != 0.1", ""),
+    "W4-C02-bbnoh-residual-energy-rho0": ("black-box Noh pressure residual: upstream-pressure work term divided by rho_0 instead of rho", "planar problem with initial pressure > 0",
+                                          "C02 located the black-box Noh shock by 'pressure > 0' and skipped every pressurised case (also on the unchanged tree): located relative to the initial pressure; catalogue draws P0 > 0 for half of the planar problems (C16 saw it as built)"),
+    "W4-C03-ned-pressure-default-sound": ("nED solver: pressure scaled with the class-default sound speed", "non-default gamma, Cv or Tref",
+                                          "C03 drew the radiative-shock solvers with default parameters only: material and upstream state varied in the catalogue (C12 saw it as built)"),
+    "W4-C04-ep-riemann-falsy-kwargs": ("Riemann wrappers drop falsy keyword arguments (`if val`)", "xd0 = 0", ""),
+    "W4-C05-sedov-nan-fill-overwrites-input": ("Sedov at t <= 0 fills the caller's position array with NaN", "t <= 0 and a float64 ndarray",
+                                               "C05 only made in-domain calls: every class is also called at t = 0 and t = -1 under the online contract monitors"),
+    "W4-C06-guderley-unique-first-occurrence": ("Guderley evaluates np.unique(r, return_index=True): later occurrences of a repeated radius stay 0", "a request with a repeated position",
+                                                "Guderley's turn in the batch unit came up once in four quick runs: costly classes outside their turn still get a three-point request with two points repeated"),
+    "W4-C07-newton-loop-not-rearmed": ("Newton solver: set_new_initial_guess no longer re-arms the iteration", "a second solve_jump_conditions() on one solver object",
+                                       "C07 solved once per object: a second solve from another starting point is compared with Noh as well (C16 saw it as built)"),
+    "W4-C08-mader-piston-sound-ratio": ("Mader: (u_piston - u_cj / c_cj) instead of (u_piston - u_cj) / c_cj", "u_piston != 0", ""),
+    "W4-C09-geneos-rcr-right-fan-sound-speed": ("same slip as W2-C01 (found independently)", "GenEOS solver, R-C-R pattern, gl != gr", ""),
+    "W4-C10-ehep-class-level-path-cache": ("EHEP region polygons cached in a class-level dictionary shared by all solver objects", "a second EHEP object with other D, up or xtilde after a first one was evaluated",
+                                           "C10 ends inconclusive (exit 2: its EHEP unit no longer finds region I), C06 reports it since EHEP joined the history pool as a global-using class"),
+    "W4-C11-sedov-omega3-exponent-sign": ("Sedov omega3 branch: sign of an exponent flipped in a de-duplication", "|geometry (2 - gamma) - omega| <= 1e-4", ""),
+    "W4-C12-ned-flux-sigma-a": ("nED radiation flux: diffusive term divided by sigma_a instead of sigma_t", "sigS != 0", ""),
+    "W4-C13-kenamond1-int-td-truncation": ("Kenamond 1: burn-time array allocated with the dtype of t_d", "t_d given as a Python/NumPy integer",
+                                           "every generator passed floats: C05 builds each class with an integer-valued parameter as int and as float and compares the records"),
+    "W4-C14-hutchens1-allclose-grid-cache": ("Hutchens1 caches the spatial modes while the new grid is np.allclose to the cached one", "one object, a second grid within 1e-5 of the first",
+                                             "C06 re-used objects on unrelated grids: a grid 3e-6 away from the first one is compared with a fresh instance; C14 takes dT/dr from two one-point calls 1e-6 b apart"),
+    "W4-C15-blake-grid-cache-shape-key": ("Blake caches grid-dependent arrays keyed on the shape of the first grid", "one object, a second grid with as many points as the first",
+                                          "C15's first request had 8 points and none of the later ones: a second 8-point grid is compared with a fresh solver (C06 saw it as built)"),
+    "W4-C16-newton-relative-tolerance-scale": ("Newton stopping measures divided by max(1, |x|) with x = (rho, e, D) of mixed units", "large-magnitude states with small density (rarefied gas in cgs)", ""),
+    "W4-C17-ehep-region4-corner": ("EHEP region IV closed with the boundary-C point on x = xmax", "(2up + D/2) tmax - 1.5 xtilde < xmax < (2up + D/2) tmax, late times, x near xmax",
+                                   "the symptom (all-zero records inside the products) was absorbed by the recorded finding about region II's corner, which matched by branch only: that finding now carries the window predicate of its own mechanism and C20 reports this one; C17 itself uses the default window and stays silent"),
+    "W4-C18-suolson-searchsorted-front": ("Su-Olson driver skips points beyond np.searchsorted(x, z_front) (assumes ascending positions)", "an unsorted request with points beyond 16 diffusion lengths",
+                                          "C18 scrambled requests that were entirely behind or entirely ahead of the wave, with one fixed permutation: a mixed profile, and a permutation that depends on the request"),
+    "W4-C19-riemann2d-radians-feedback": ("2-D Riemann: states converted to radians in place and fed back through the wrapper's attributes", "one object evaluated twice, non-zero flow angle", ""),
+    "W4-C20-kenamond3-frobenius-norm-guard": ("Kenamond 3: inert-region guard on np.linalg.norm of the whole point list", "a list that mixes valid points and points inside the obstacle",
+                                              "C20 probed the guard with interior points only: interior points among valid ones, judged record by record"),
 }
 
 
